@@ -272,13 +272,13 @@ func energySuite(seed uint64, tier, outDir string) (*core.Result, error) {
 		case k < 63:
 			return tsAt(-int64(rng.Range(1, 100000))) // before genesis
 		case k < 66:
-			return pickStr(rng,[]string{"0", "-1", "-9223372036854775808", "1"})
+			return pickStr(rng, []string{"0", "-1", "-9223372036854775808", "1"})
 		case k < 74:
 			return tsAt(core.PickI64(rng, []int64{1<<32 - 1, 1<<32 - 300, 1 << 32, 1<<32 + 299, 1<<32 + 300, 1 << 33, 1 << 40, 1<<32 - 301}))
 		case k < 78:
-			return pickStr(rng,[]string{"9223372036854775807", "9223372036854775808", "99999999999999999999", "-9223372036854775809"})
+			return pickStr(rng, []string{"9223372036854775807", "9223372036854775808", "99999999999999999999", "-9223372036854775809"})
 		case k < 84:
-			return pickStr(rng,[]string{"", " ", "abc", "timestamp", "Timestamp", "12:30", "1.7e9", "0x10", "1_000", "１２３"})
+			return pickStr(rng, []string{"", " ", "abc", "timestamp", "Timestamp", "12:30", "1.7e9", "0x10", "1_000", "１２３"})
 		case k < 88:
 			return " " + goodTS()
 		case k < 92:
@@ -296,18 +296,18 @@ func energySuite(seed uint64, tier, outDir string) (*core.Result, error) {
 		case k < 33:
 			return strconv.FormatFloat(float64(rng.Intn(1000000))/float64(1+rng.Intn(977)), 'f', -1, 64)
 		case k < 43:
-			return pickStr(rng,[]string{"24", "-24", "23.999999999999996", "-23.999999999999996", "24.000000000000004", "23.9999999999999999999", "0", "-0", "1", "23", "-23", "25", "-25", "24.5", "1e1", "2.4e1", "0.24e2", "5e-324", "-5e-324"})
+			return pickStr(rng, []string{"24", "-24", "23.999999999999996", "-23.999999999999996", "24.000000000000004", "23.9999999999999999999", "0", "-0", "1", "23", "-23", "25", "-25", "24.5", "1e1", "2.4e1", "0.24e2", "5e-324", "-5e-324"})
 		case k < 53:
 			return "-" + strconv.FormatFloat(float64(rng.Intn(5000000))/float64(1+rng.Intn(13)), 'f', -1, 64)
 		case k < 62:
-			return pickStr(rng,[]string{"1e3", "2.5E+2", "1E6", "-3.25e4", "7e0", "1e-3", "12345e-2", "1.5e15", "-1.5e15", "4.7e18"})
+			return pickStr(rng, []string{"1e3", "2.5E+2", "1E6", "-3.25e4", "7e0", "1e-3", "12345e-2", "1.5e15", "-1.5e15", "4.7e18"})
 		case k < 72:
-			return pickStr(rng,[]string{"1e300", "-1e300", "1e308", "1.7976931348623157e308", "1e309", "-1e309", "9223372036854775807", "9223372036854775808", "-9223372036854775808", "-9223372036854775809",
+			return pickStr(rng, []string{"1e300", "-1e300", "1e308", "1.7976931348623157e308", "1e309", "-1e309", "9223372036854775807", "9223372036854775808", "-9223372036854775808", "-9223372036854775809",
 				"9.3e18", "1.8e19", "18446744073709551615", "2e19", "-2e19", "9223372036854774784", "4294967296", "4294967301", "2147483648", "-2147483649"})
 		case k < 80:
-			return pickStr(rng,[]string{"NaN", "nan", "Inf", "-Inf", "+Inf", "inf", "infinity", "-Infinity", "NAN", "iNf"})
+			return pickStr(rng, []string{"NaN", "nan", "Inf", "-Inf", "+Inf", "inf", "infinity", "-Infinity", "NAN", "iNf"})
 		case k < 90:
-			return pickStr(rng,[]string{"", " ", " 5", "5 ", "abc", "12,5", "1.2.3", "--5", "0x1p10", "0x1.8p4", "1_000", "0b101", "12kWh", "error", "null", "１２", "1e", ".", "+", "+.5e1"})
+			return pickStr(rng, []string{"", " ", " 5", "5 ", "abc", "12,5", "1.2.3", "--5", "0x1p10", "0x1.8p4", "1_000", "0b101", "12kWh", "error", "null", "１２", "1e", ".", "+", "+.5e1"})
 		default:
 			return `"` + strconv.Itoa(rng.Intn(90000)) + `"`
 		}
